@@ -27,6 +27,8 @@ RULES = {
     "R3-sampler-form": "indices == searchsorted(cumsum(priority[:len] * mask[:len]), uniform(0,1,B) * total); stratified: uniform(k*total/B, (k+1)*total/B)",
     "R4-bookkeeping": "update_priority: priority[sampled_indices] = new, max_priority = max(max(new), max_priority); reset: max(priority[:len]); buffers delegate to their PriorityBuffer with current_len",
     "R5-formulas": "LAP: max(|d|, p_min)^alpha; PER: |d|^alpha + eps; importance ratio (len * p / sum)^(-beta) normalised by its max",
+    "R7-store-writers": "the stored priority array (PriorityBuffer.priority) is written only by __init__, initialize_priority and update_priority: no other function writes it through a subscript store, an augmented assignment or an in-place numpy call, directly or through a view (basic slice, np.asarray, reshape, ravel) held in a local",
+    "R8-multitask-routing": "MultiTaskReplayBuffer.update_priority forwards to the member buffer that the last sample_batch sampled from (same index expression, recorded by sample_batch); reset_max_priority reaches every member",
     "R6-call-protocol": "update_priority(<priority of the errors returned by the update that consumed the last sampled batch>) with no sample_batch on that buffer in between",
 }
 
@@ -106,9 +108,155 @@ def r1_field_agreement(ck, repo):
     return field
 
 
+_VIEW_METHODS = {"reshape", "ravel", "view", "squeeze", "transpose", "swapaxes"}
+_VIEW_FUNCS = {"asarray", "asanyarray", "ravel", "reshape", "atleast_1d", "squeeze", "transpose"}
+_INPLACE_METHODS = {"fill", "sort", "put", "itemset", "partition", "setfield", "resize", "clip_", "__setitem__"}
+_INPLACE_FUNCS = {"copyto", "put", "place", "putmask", "put_along_axis", "fill_diagonal"}
+_WRITERS_ALLOWED = {"__init__", "initialize_priority", "update_priority"}
+
+
+def _basic_index(ix):
+    """True when the subscript is basic indexing producing a numpy *view* (slices / Ellipsis / None only)."""
+    if isinstance(ix, ast.Slice):
+        return True
+    if isinstance(ix, ast.Constant) and ix.value in (Ellipsis, None):
+        return True
+    if isinstance(ix, ast.Tuple):
+        return all(_basic_index(e) or (isinstance(e, ast.Constant) and isinstance(e.value, int)) for e in ix.elts) and any(isinstance(e, ast.Slice) for e in ix.elts)
+    return False
+
+
+def r7_store_writers(ck, repo, res):
+    PB = RB + "PriorityBuffer"
+    n_fn = n_alias = 0
+    for fq, fn, _mi in repo.all_functions():
+        if not fq.startswith("rl_blox."):
+            continue
+        src_has = any(isinstance(n, ast.Attribute) and n.attr == "priority" for n in ast.walk(fn))
+        if not src_has:
+            continue
+        mi = fn._module
+        in_pb = fq.startswith(PB + ".")
+        mname = fq.rsplit(".", 1)[-1]
+        if in_pb and mname in _WRITERS_ALLOWED:
+            continue
+        n_fn += 1
+        cfg = res.cfg_of(fn)
+
+        def is_store(e, at, depth=0):
+            """does expression e (evaluated at CFG node `at`) denote the stored priority array or a view of it?"""
+            if depth > 8:
+                return False
+            if isinstance(e, ast.Attribute):
+                d = dotted(e)
+                if d == "self.priority" and in_pb:
+                    return True
+                if d and d.endswith(".priority.priority"):
+                    return True
+                if e.attr == "T":
+                    return is_store(e.value, at, depth + 1)
+                return False
+            if isinstance(e, ast.Subscript):
+                return _basic_index(e.slice) and is_store(e.value, at, depth + 1)
+            if isinstance(e, ast.Name):
+                ds = cfg.defs_of(at, e.id)
+                return any(d.kind == "assign" and d.value is not None and is_store(d.value, d.node, depth + 1) for d in ds)
+            if isinstance(e, ast.Call):
+                f = e.func
+                if isinstance(f, ast.Attribute) and f.attr in _VIEW_METHODS and is_store(f.value, at, depth + 1):
+                    return True
+                if isinstance(f, ast.Attribute) and f.attr in _VIEW_FUNCS and dotted(f.value) in ("np", "numpy") and e.args and is_store(e.args[0], at, depth + 1):
+                    return True
+            return False
+
+        for node in cfg.nodes:
+            if node.ast is None or node.kind != "stmt":
+                continue
+            st = node.ast
+            bad = None
+            if isinstance(st, ast.Assign):
+                for t in st.targets:
+                    for tt in (t.elts if isinstance(t, ast.Tuple) else [t]):
+                        if isinstance(tt, ast.Subscript) and is_store(tt.value, node.id):
+                            bad = f"subscript store `{short(st, 70)}`"
+                        if isinstance(tt, ast.Attribute) and is_store(tt, node.id) and not (in_pb and mname == "__init__"):
+                            bad = f"rebinding `{short(st, 70)}`"
+            elif isinstance(st, ast.AugAssign):
+                t = st.target
+                if (isinstance(t, ast.Subscript) and is_store(t.value, node.id)) or is_store(t, node.id):
+                    bad = f"in-place `{short(st, 70)}`"
+            for c in ast.walk(st):
+                if not isinstance(c, ast.Call):
+                    continue
+                f = c.func
+                if isinstance(f, ast.Attribute) and f.attr in _INPLACE_METHODS and is_store(f.value, node.id):
+                    bad = f"in-place method `{short(c, 70)}`"
+                if isinstance(f, ast.Attribute) and f.attr in _INPLACE_FUNCS and dotted(f.value) in ("np", "numpy") and c.args and is_store(c.args[0], node.id):
+                    bad = f"in-place numpy call `{short(c, 70)}`"
+                for kw in c.keywords:
+                    if kw.arg == "out" and is_store(kw.value, node.id):
+                        bad = f"`out=` targets the stored priorities in `{short(c, 70)}`"
+            # count views held in locals (instance floor: the samplers do take such views)
+            if isinstance(st, ast.Assign) and isinstance(st.targets[0], ast.Name) and is_store(st.value, node.id):
+                n_alias += 1
+            ck.ob("R7-store-writers", fq, f"stmt:{short(st, 50)}", bad is None, "does not write the stored priorities" if bad is None else bad,
+                  "" if bad is None else f"{bad} mutates the stored priority array outside initialize_priority / update_priority: sampling (or another read-only operation) permanently changes the sampling distribution", loc(mi, st)) if (bad or (isinstance(st, (ast.Assign, ast.AugAssign)) and any(isinstance(x, ast.Name) and is_store(x, node.id) for x in ast.walk(st)))) else None
+    ck.floor("functions-touching-priority", n_fn, 8)
+    ck.floor("views-of-stored-priorities", n_alias, 2)
+
+
+def r8_multitask(ck, repo, nf):
+    MT = RB + "MultiTaskReplayBuffer"
+    mi = repo.module("rl_blox.blox.replay_buffer")
+    sb = _m(repo, MT, "sample_batch")
+    up = _m(repo, MT, "update_priority")
+    rs = _m(repo, MT, "reset_max_priority")
+
+    def member_calls(fn, meth):
+        out = []
+        for c in ast.walk(fn):
+            if isinstance(c, ast.Call) and isinstance(c.func, ast.Attribute) and c.func.attr == meth and isinstance(c.func.value, ast.Subscript) and dotted(c.func.value.value) == "self.buffers":
+                out.append(c)
+        return out
+    s_calls = member_calls(sb, "sample_batch")
+    u_calls = member_calls(up, "update_priority")
+    ck.need(len(s_calls) == 1, f"{MT}.sample_batch: expected exactly one self.buffers[...].sample_batch call")
+    s_ix = s_calls[0].func.value.slice
+    ok = len(u_calls) == 1 and ast.dump(u_calls[0].func.value.slice) == ast.dump(s_ix)
+    ck.ob("R8-multitask-routing", MT + ".update_priority", "same-member-as-last-sample", ok,
+          f"sample_batch -> self.buffers[{short(s_ix, 40)}]; update_priority -> {[('self.buffers[' + short(c.func.value.slice, 40) + ']') for c in u_calls]}",
+          "" if ok else "the new priorities must go to the member buffer that produced the last batch (its sampled_indices); another member's last-sampled entries would be overwritten instead", loc(mi, up))
+    # the index is an attribute recorded by sample_batch itself on every path to the member call, and written nowhere else
+    ck.need(isinstance(s_ix, ast.Attribute) and dotted(s_ix.value) == "self", f"{MT}.sample_batch: member index is not an attribute of self")
+    cfg = nf.cfg_of(sb)
+    w = [n for n in cfg.nodes if n.kind == "stmt" and isinstance(n.ast, ast.Assign) and any(dotted(t) == dotted(s_ix) for t in n.ast.targets)]
+    callnode = [n for n in cfg.nodes if n.kind == "stmt" and n.ast is not None and any(c is s_calls[0] for c in ast.walk(n.ast))]
+    ok = len(w) == 1 and len(callnode) == 1 and cfg.dominates(w[0].id, callnode[0].id)
+    ck.ob("R8-multitask-routing", MT + ".sample_batch", "records-sampled-member", ok, f"`{short(w[0].ast, 80) if w else None}` before the member's sample_batch", "" if ok else "sample_batch must record which member it samples from before delegating", loc(mi, sb))
+    other = []
+    for meth in repo.cls(MT).body:
+        if isinstance(meth, ast.FunctionDef) and meth.name not in ("sample_batch", "__init__"):
+            for n in ast.walk(meth):
+                if isinstance(n, (ast.Assign, ast.AugAssign)):
+                    for t in (n.targets if isinstance(n, ast.Assign) else [n.target]):
+                        if dotted(t) == dotted(s_ix):
+                            other.append(f"{meth.name}: {short(n, 60)}")
+    ck.ob("R8-multitask-routing", MT, "sampled-member-single-writer", not other, f"{dotted(s_ix)} written only by sample_batch", "" if not other else f"{other} overwrites the record of the last sampled member", loc(mi, repo.cls(MT)))
+    # the drawn member comes from the non-empty members
+    if w:
+        txt = ast.unparse(w[0].ast.value)
+        ok = "self.active_buffers" in txt and "rng.choice" in txt
+        ck.ob("R8-multitask-routing", MT + ".sample_batch", "draws-from-active", ok, txt, "" if ok else "the member must be drawn from the non-empty members with the caller's rng", loc(mi, w[0].ast))
+    body = "\n".join(ast.unparse(s) for s in rs.body if not (isinstance(s, ast.Expr) and isinstance(s.value, ast.Constant)))
+    ok = body == "for buffer in self.buffers:\n    buffer.reset_max_priority()"
+    ck.ob("R8-multitask-routing", MT + ".reset_max_priority", "all-members", ok, body.replace("\n", " "), "" if ok else "every member's maximum must be recomputed", loc(mi, rs))
+
+
 def run(ck, repo: Repo, tier: str):
     nf = NF(repo, inline_depth=1, inline_calls=False)
     field = r1_field_agreement(ck, repo)
+    r7_store_writers(ck, repo, Resolver(repo))
+    r8_multitask(ck, repo, nf)
     PB = RB + "PriorityBuffer"
     mi = repo.module("rl_blox.blox.replay_buffer")
 
@@ -298,8 +446,14 @@ MUTANTS = [
     {"id": "c08-td3lap-resample", "file": "rl_blox/algorithm/td3_lap.py", "rule": "R6", "find": "                priority = lap_priority(\n                    max_abs_td_error, lap_min_priority, lap_alpha\n                )\n", "replace": "                priority = lap_priority(\n                    max_abs_td_error, lap_min_priority, lap_alpha\n                )\n                if logger is not None and step % 1000 == 0:\n                    logger.record_stat(\"batch reward\", float(replay_buffer.sample_batch(batch_size, rng).reward.mean()))\n"},
     {"id": "c08-mrq-priority-before-update", "file": "rl_blox/algorithm/mrq.py", "rule": "R6", "find": "            replay_buffer.update_priority(\n                lap_priority(max_abs_td_error, lap_min_priority, lap_alpha)\n            )", "replace": "            replay_buffer.update_priority(\n                lap_priority(q_mean, lap_min_priority, lap_alpha)\n            )"},
     {"id": "c08-per-lap-priority", "file": "rl_blox/algorithm/per.py", "rule": "R6", "find": "                priority = per_priority(\n                    abs_td_error, alpha=per_alpha, epsion=1e-6\n                )", "replace": "                priority = abs_td_error"},
+    {"id": "c08-sampler-inplace-mask", "file": _F, "rule": "R7", "nth": 0, "find": "            priority = priority * mask[:current_len]", "replace": "            priority *= mask[:current_len]"},
+    {"id": "c08-stratified-inplace-normalise", "file": _F, "rule": "R7", "find": "        probabilities = np.cumsum(priority)\n\n        # stratified", "replace": "        priority /= priority.sum()\n        probabilities = np.cumsum(priority)\n\n        # stratified"},
+    {"id": "c08-ratio-out-param", "file": _F, "rule": "R7", "find": "        normalized_weights = is_weight / np.max(is_weight)", "replace": "        normalized_weights = np.divide(is_weight, np.max(is_weight), out=self.priority.priority[: len(is_weight)])"},
+    {"id": "c08-multitask-selected", "file": _F, "rule": "R8", "find": "        self.buffers[self.sampled_task_idx].update_priority(priority)", "replace": "        self.buffers[self.selected_task].update_priority(priority)"},
+    {"id": "c08-multitask-reset-selected", "file": _F, "rule": "R8", "find": "        for buffer in self.buffers:\n            buffer.reset_max_priority()", "replace": "        self.buffers[self.selected_task].reset_max_priority()"},
 ]
 BENIGN = [
+    {"id": "c08-b-sampler-copy-inplace", "file": _F, "nth": 0, "find": "            priority = priority * mask[:current_len]", "replace": "            priority = priority.copy()\n            priority *= mask[:current_len]"},
     {"id": "c08-b-local-alias", "file": _F, "find": "        self.priority[self.sampled_indices] = priority\n        self.max_priority = max(np.max(priority), self.max_priority)", "replace": "        self.priority[self.sampled_indices] = priority\n        self.max_priority = max(np.max(priority), self.max_priority)\n        assert self.max_priority > 0"},
     {"id": "c08-b-sampler-commuted", "file": _F, "find": "        random_uniforms = rng.uniform(0, 1, size=batch_size) * probabilities[-1]", "replace": "        random_uniforms = probabilities[-1] * rng.uniform(0, 1, size=batch_size)"},
     {"id": "c08-b-td3lap-inline", "file": "rl_blox/algorithm/td3_lap.py", "find": "                priority = lap_priority(\n                    max_abs_td_error, lap_min_priority, lap_alpha\n                )\n                replay_buffer.update_priority(priority)", "replace": "                replay_buffer.update_priority(\n                    lap_priority(max_abs_td_error, lap_min_priority, lap_alpha)\n                )"},
